@@ -95,7 +95,8 @@ def np_dtype(sem, dts):
 
 def valid_operand_dtypes(kind, arity, tier):
     real_only = {"lt", "le", "gt", "ge", "maximum", "minimum", "floor", "ceil", "truncate", "atan2", "hypot", "copysign", "remainder", "floor_divide",
-                 "nextafter", "sign", "complex", "is_finite", "round", "logical_and", "logical_or", "logical_not", "logical_xor"}
+                 "nextafter", "complex", "round", "logical_and", "logical_or", "logical_not", "logical_xor"}
+    # numpy.sign and numpy.isfinite accept complex operands (sign(z) = z / |z| stays complex)
     dom = FLOATS if kind in real_only else FLOATS + COMPLEXES
     if kind in ("logical_and", "logical_or", "logical_not", "logical_xor"):
         dom = ["bool"]
